@@ -83,6 +83,20 @@ Theorem C09_lib_refines_map : forall (H : list token -> N) (l : list key), Foral
 Proof. exact lib_refines_map. Qed.
 Print Assumptions C09_lib_refines_map.
 
+(* set(x), for every iterable x (for a dictionary: over its keys, whatever its values and default): a dictionary without
+   default whose values are all null and whose keys are items of x; bucket model = specification *)
+Theorem C09_set_is_all_null_without_default : forall (slot : key -> key -> bool) (V : Type) (vnull : V) (l : list key),
+  snd (set_dict slot vnull l) = None /\
+  (forall k v, In (k, v) (fst (set_dict slot vnull l)) -> v = vnull) /\
+  (forall k v, In (k, v) (fst (set_dict slot vnull l)) -> In k l).
+Proof. exact set_dict_all_null. Qed.
+Print Assumptions C09_set_is_all_null_without_default.
+
+Theorem C09_set_refines_map : forall (H : list token -> N) (V : Type) (vnull : V) (l : list key), Forall wf_key l ->
+  set_dict (hm_slot (key_hash H)) vnull l = set_dict key_eq vnull l.
+Proof. exact set_dict_refines. Qed.
+Print Assumptions C09_set_refines_map.
+
 (* memoize: a call whose arguments are == to those of an earlier call returns the stored result *)
 Theorem C09_memo_refines_map : forall (H : list token -> N) (R : Type) (f : list key -> R) (calls : list (list key)),
   (forall args, In args calls -> Forall wf_key args) ->
